@@ -168,6 +168,10 @@ func generateFanIn(rng *rand.Rand, prop string, gomaxprocs int) *Desc {
 	return d
 }
 
+// genRun is the index of the run being generated within its process's batch
+// (populations with one very long workload place it by it).
+var genRun int
+
 // Generate draws a run descriptor for the given property's population.
 func Generate(rng *rand.Rand, prop, tier string, gomaxprocs int) *Desc {
 	if prop == "C01fanin" || prop == "C19fanin" || prop == "C05fanin" {
@@ -273,8 +277,8 @@ func Generate(rng *rand.Rand, prop, tier string, gomaxprocs int) *Desc {
 			}
 			s.Emitter = false
 			errRate, goexitRate = 0, rng.Intn(2)*2
-			if rng.Intn(25) == 0 {
-				// more than 2^16 jobs through one and the same worker goroutine
+			if (genRun == 1 && tier == "quick") || rng.Intn(40) == 0 {
+				// (the second run of every quick batch, else now and then:) more than 2^16 jobs through one and the same worker goroutine
 				s.N, nj, goexitRate = 1, 1<<16+500+rng.Intn(2000), 0
 			}
 			s.COE = true
